@@ -150,16 +150,60 @@ def search_counterexample(prop, v, tier):
 
 
 def replay(path):
+    """re-execute a recorded violation against /repo's current working tree; exit 1 if it still shows, 0 if not"""
     v = json.load(open(path))
-    print("replay of %s: property=%s" % (path, v.get("property")))
-    print("violated obligation:", v.get("obligation") or v.get("name"), "in", v.get("function"), v.get("file"))
-    cex = v.get("counterexample")
-    if not cex:
-        print("no concrete failing input was found by the bounded search; verifier output follows")
-        for d in v.get("diagnostics", []):
-            print(d.get("verifier_output", ""))
-        return 1
-    print(json.dumps(cex, indent=1))
+    prop = v.get("property")
+    print("replay of %s: property=%s" % (path, prop))
+    kind = v.get("kind")
+    os.environ["VERIF_NOCACHE"] = "1"
+    if kind == "obligation":
+        import driver
+        print("violated obligation: %s in %s (%s), unit %s" % (v.get("obligation"), v.get("function"), v.get("file"), v.get("unit")))
+        print("clause: %s" % v.get("clause_text"))
+        cex = v.get("counterexample")
+        if cex:
+            print("concrete failing input found by %s:" % cex.get("found_by"))
+            print(json.dumps(cex.get("input"), indent=1)[:4000])
+        else:
+            print("no concrete failing input was found by the bounded search (no-failing-input-found); verifier output at the time:")
+            for d in v.get("diagnostics", [])[:2]:
+                print(d.get("verifier_output", ""))
+        try:
+            r = driver.run_unit(v["unit"])
+        except Inconclusive as e:
+            print("re-run inconclusive:", e)
+            return 2
+        base = v.get("obligation", "").split("@")[0]
+        still = [o for o in r["obligations"] if o["status"] == "failed" and (o["id"] == v.get("obligation") or o["id"].split("@")[0] == base)]
+        if still:
+            print("RE-RUN: the verifier still rejects this obligation on the current tree:")
+            for d in still[0]["diags"][:2]:
+                print(d.get("rendered", ""))
+            return 1
+        print("RE-RUN: the obligation is discharged on the current tree")
+        return 0
+    if kind == "bounded":
+        leg = v.get("name", "").split(":", 1)[1]
+        cex = v.get("counterexample", {})
+        print("bounded leg %s; recorded failing input:" % leg)
+        print(json.dumps(cex, indent=1)[:4000])
+        d = conform_leg(leg, "quick", 0)
+        vs = [x for x in d.get("violations", []) if prop in x.get("tags", []) or "*" in x.get("tags", [])]
+        if vs:
+            print("RE-RUN on the real code: the leg fails again, e.g.:")
+            print(json.dumps(vs[0], indent=1)[:3000])
+            return 1
+        print("RE-RUN on the real code: no violation for %s" % prop)
+        return 0
+    if kind == "kani":
+        print(json.dumps(v.get("counterexample"), indent=1)[:4000])
+        d = kani_urgency()
+        if d.get("violations"):
+            print("RE-RUN: Kani refutes again:", d["violations"][0]["what"])
+            return 1
+        print("RE-RUN: all Kani harnesses pass")
+        return 0
+    print(json.dumps(v, indent=1)[:3000])
     return 1
 
 
@@ -171,10 +215,10 @@ def _configure():
     NR_MEM = "core/src/inmemory.rs: locking (Mutex) is not modelled (A3)"
     cfg("C01", "proof", ["A1", "A2", "A4", "A6", "A8", "A11", "A13"], assumptions=[A["A1"], A["A8"]], not_reached=[NR_SQL, NR_MEM],
         explanation="chain_wf (one unbranched chain, child index = inverse of parent links, no orphans, snapshot on chain) is an invariant: preserved by every contracted operation (av.inv, snap.inv, read-only clauses), the storage preconditions that protect it are discharged at every call site (st.*.pre), and the history lemmas (unit L) lift it to all finite histories and to the walk from the base",
-        legs=[EXPLORE, INTERLEAVE, SQLCONF])
+        legs=[EXPLORE, INTERLEAVE, SQLCONF, HTTP])
     cfg("C02", "proof", ["A1", "A4", "A6", "A8", "A11", "A12", "A13"], assumptions=[A["A1"], A["A8"]], not_reached=[NR_SQL, NR_HTTP],
         explanation="postconditions av.accept_iff / av.accepted_state / av.rejected / av.id_from_v4 / av.ack_after_commit of the real Server::add_version, for every abstract pre-state satisfying chain_wf, every parent id, payload and placement of storage faults; enc.av for the HTTP entry point",
-        legs=[EXPLORE, SQLCONF])
+        legs=[EXPLORE, SQLCONF, HTTP])
     cfg("C03", "proof", ["A3", "A4", "A5", "A13"], assumptions=[A["A3"], A["A5"], "the reduction from interleavings to the three sequential obligations O1-O3 is a paper argument (DESIGN.md 5.C03), not machine-checked"],
         not_reached=["lock-wait budget / busy timeouts; anything inside SQLite or Mutex; partial overlap inside a transaction is excluded by A3/A5, not checked", NR_SQL],
         explanation="three sequential obligations: O1 every Server operation uses exactly one transaction opened for its own client (E9 twin + may_open); O2 every storage precondition in a handler is established inside the same transaction (Server::txn returns an arbitrary invariant-satisfying state); O3 effects reach durable state only through one commit and success is reported only after it",
